@@ -39,7 +39,7 @@ CLAIMED = {
          "Reference = mirsym/refmodel.py, written from the format description."),
  "C18": ("extraction (copy/reflink/hard_link, checked/unchecked, by key/address) on pristine, damaged and missing content, fresh and existing destinations and destinations produced by an earlier extraction, stored content intact afterwards, filesystems with and without reflink",
          "Bounded: checked extraction <= 3 verification reads (quick 2)."),
- "C19": ("link_to by key/address with absolute, relative and dotdot-through-symlink targets, partial reads through the linker, target rewritten/removed/replaced afterwards, twin targets with identical bytes, address already present as regular content, declared size/integrity incl. two-hash integrities",
+ "C19": ("link_to by key/address with absolute, relative and dotdot-through-symlink targets, partial reads through the linker, target rewritten/removed/replaced afterwards, twin targets with identical bytes (the second changed afterwards, or the first removed before an intact twin is linked), address already present as regular content, declared size/integrity incl. two-hash integrities",
          "Targets up to 3 verification reads (8 B probe + 2 x 16 KiB); link_to feature enabled in all dumps."),
  "C20": ("totality: every public operation on hostile on-disk states (checksum-valid records with hostile integrity strings / wrong types / missing fields, empty/NUL/newline buckets, files where directories are expected and vice versa, looping and dangling symlinks) and writers with arbitrary declared sizes and timestamps, the cache changed under an open writer, extraction to odd destinations; panics, aborts and step-budget hangs are violations",
          "One known finding (F9) is reported as KNOWN-FINDING."),
